@@ -110,8 +110,20 @@ def generate(tape, tier="quick"):
                 o["axes"] = [[x + 0.25 for x in a] for a in o["axes"]]
             c["layout"] = o
         cons.append(c)
-    return {"engine": "M", "g": g, "prod": prod, "cons": cons, "late_info": tape.chance(1, 3),
-            "order": tape.shuffle(list(range(len(cons))))}
+    sc = {"engine": "M", "g": g, "prod": prod, "cons": cons, "late_info": tape.chance(1, 3),
+          "order": tape.shuffle(list(range(len(cons))))}
+    if tape.chance(1, 80):
+        # a long connect history in this process first: several hundred scalar links with unit pairs from the large
+        # catalogue of C17 (about one in five incompatible), each judged by the dimension table; the process-wide unit
+        # memo is then large when the scenario proper is connected
+        from .c17 import XNAMES, CAT
+        warm = []
+        for _ in range(tape.weighted([(300, 2), (450, 3), (700, 2)])):
+            a = tape.choice(XNAMES)
+            b = tape.choice(XNAMES) if tape.chance(1, 5) else tape.choice([u for u in XNAMES if CAT[u][0] == CAT[a][0]])
+            warm.append([a, b])
+        sc["warm"] = warm
+    return sc
 
 
 def execute(sc):
@@ -126,6 +138,35 @@ def execute(sc):
 
     def v(oracle, kind, msg):
         viol.append({"oracle": oracle, "kind": kind, "msg": msg})
+
+    if sc.get("warm"):
+        from .c17 import CAT
+        from finam.data import tools as _tools
+        _tools.clear_units_cache()
+        for k, (a, b) in enumerate(sc["warm"]):
+            wo = Output(name="o", info=Info(time=dt(0), grid=NoGrid(), units=a))
+            wi = Input(name="i", info=Info(time=dt(0), grid=NoGrid(), units=b))
+            wo >> wi
+            wi.ping()
+            ok = CAT[a][0] == CAT[b][0]
+            try:
+                wi.exchange_info()
+                if not ok:
+                    v("meta-not-rejected", "units", f"history link {k}: {a} -> {b} connected although the dimensions differ")
+                    break
+                if not _tools.equivalent_units(wi.info.units, b):
+                    v("meta-fill", "units", f"history link {k}: {a} -> {b}: input units are {wi.info.units}")
+                    break
+            except FinamMetaDataError as e:
+                if ok:
+                    v("meta-false-reject", "reject", f"history link {k}: {a} -> {b} rejected although convertible: {e}")
+                    break
+            except Exception as e:      # noqa: BLE001
+                v("meta-exception", type(e).__name__, f"history link {k}: {a} -> {b}: {type(e).__name__}: {e}")
+                break
+        if viol:
+            return {"violations": viol, "digest": digest_of(sc["warm"]), "probes": {"long_unit_histories": 1}, "faults": {},
+                    "nontrivial": True, "sig": "warm", "sim_hours": 0, "cls": "warm-violation", "outcome": {}}
 
     g = sc["g"]
     G, MG = make_grid(g), MGrid(g)
@@ -355,7 +396,8 @@ def execute(sc):
                 or c["time"] != p["time"] for c in sc["cons"])
     cls = f"{want}:{status}"
     return {"violations": viol, "digest": digest_of(sc), "nontrivial": (mixed or bool(conflict)) and status in ("ok", "meta"),
-            "probes": {"undetermined": int(bool(undetermined)), "late_info": int(sc["late_info"])}, "faults": {},
+            "probes": {"undetermined": int(bool(undetermined)), "late_info": int(sc["late_info"]),
+                       "long_unit_histories": int(bool(sc.get("warm")))}, "faults": {},
             "sig": cls + str(sc["order"]), "cls": cls, "sim_hours": 0,
             "outcome": {"expected": want, "status": status, "conflict": conflict[:2], "undetermined": undetermined[:2]}}
 
